@@ -139,17 +139,19 @@ func (sm *stateMachine) executeAction(t *T) bool {
 }
 
 func runAction(t *T, action func(*T)) (invalid bool, skipped bool) {
-	defer func(draws int) {
+	defer func(draws int, drawn int) {
 		if r := recover(); r != nil {
 			if _, ok := r.(invalidData); ok {
 				invalid = true
-				skipped = t.draws == draws
+				// an action that has consumed data (e.g. in rejected attempts of a filter) can not be retried in place:
+				// replay of pruned data would see other bits
+				skipped = t.draws == draws && t.s.drawn() == drawn
 				t.failOnError() // a non-fatal failure signalled before the skip stops Repeat, too
 			} else {
 				panic(r)
 			}
 		}
-	}(t.draws)
+	}(t.draws, t.s.drawn())
 
 	action(t)
 	t.failOnError()
